@@ -89,17 +89,17 @@ theorem sublist_filterMap_of_imp {α β : Type} (g h : α → Option β) : ∀ (
       rw [himp x (by simp) b hg]
       exact List.Sublist.cons₂ _ hrec
 
-theorem mem_visible {t : Tree} (hts : nestedSkipShadows t = false) {l : Leaf} (hl : l ∈ leavesTop t)
+theorem mem_visible {t : Tree} {l : Leaf} (hl : l ∈ leavesTop t)
     (hsh : genShadow t l.depth l.info.name = false) : l ∈ visibleLeaves t := by
   unfold visibleLeaves
   simp only [List.mem_filter, hl, true_and]
-  have := shadow_agrees t hts l hl
+  have := shadow_agrees t l hl
   rw [hsh] at this
   simp [← this]
 
 /-- the parameter entries of the generator's list are visible leaves: their parameter names are distinct
     whenever those of the visible leaves are -/
-theorem condNames_nodup (t : Tree) (hn : Bool) (hts : nestedSkipShadows t = false)
+theorem condNames_nodup (t : Tree) (hn : Bool)
     (hnd : ((visibleLeaves t).map (fun l => paramName l.info.name)).Nodup) :
     (((flatten t).filter (condNew hn)).map (fun f => paramName f.name)).Nodup := by
   have e1 : ((flatten t).filter (condNew hn)).map (fun f => paramName f.name) =
@@ -121,7 +121,7 @@ theorem condNames_nodup (t : Tree) (hn : Bool) (hts : nestedSkipShadows t = fals
   rw [e2] at hnd
   refine List.Sublist.nodup (sublist_filterMap_of_imp _ _ _ ?_) hnd
   intro l hl b hb
-  have hag := shadow_agrees t hts l hl
+  have hag := shadow_agrees t l hl
   rw [hag] at hb
   cases hg : goShadowed t l.depth l.info.name
   · simp only [hg, Bool.or_false] at hb
@@ -135,14 +135,14 @@ theorem condNames_nodup (t : Tree) (hn : Bool) (hts : nestedSkipShadows t = fals
   · simp [hg] at hb
 
 /-- L3: for a visible, non-skipped leaf the name-keyed map answers for that very leaf -/
-theorem nameMap_of_leaf (t : Tree) (hn : Bool) (hts : nestedSkipShadows t = false)
+theorem nameMap_of_leaf (t : Tree) (hn : Bool)
     (hnd : ((visibleLeaves t).map (fun l => paramName l.info.name)).Nodup)
     (l : Leaf) (hl : l ∈ leavesTop t) (hsk : l.info.skip = false)
     (hsh : genShadow t l.depth l.info.name = false) :
     nameMap hn (flatten t) l.info.name =
       if (!hn || l.marked) then some (paramName l.info.name) else none := by
-  rw [nameMap_simple hn _ _ (condNames_nodup t hn hts hnd), nameMapSimple_leaves]
-  have hvis := mem_visible hts hl hsh
+  rw [nameMap_simple hn _ _ (condNames_nodup t hn hnd), nameMapSimple_leaves]
+  have hvis := mem_visible hl hsh
   have : (nonSkipped t).any (fun l' => decide (l'.info.name = l.info.name) &&
       !genShadow t l'.depth l'.info.name && !(hn && !l'.marked)) = (!hn || l.marked) := by
     cases hb : (!hn || l.marked)
@@ -150,7 +150,7 @@ theorem nameMap_of_leaf (t : Tree) (hn : Bool) (hts : nestedSkipShadows t = fals
       intro l' hl' hc
       simp only [Bool.and_eq_true, decide_eq_true_eq, Bool.not_eq_true'] at hc
       have hl'' : l' ∈ leavesTop t := (List.mem_filter.mp hl').1
-      have hvis' := mem_visible hts hl'' hc.1.2
+      have hvis' := mem_visible hl'' hc.1.2
       have e : l' = l := eq_of_nodup_map hnd l' hvis' l hvis (by simp [hc.1.1])
       subst e
       cases hn <;> cases hm : l'.marked <;> simp_all
@@ -186,26 +186,26 @@ theorem paramNames_leaves (t : Tree) (hn : Bool) :
       cases nameMap hn (flatten t) l.info.name <;> simp
     · simp
 
-theorem eligible_iff_leafParam (t : Tree) (hts : nestedSkipShadows t = false)
+theorem eligible_iff_leafParam (t : Tree)
     (hnd : ((visibleLeaves t).map (fun l => paramName l.info.name)).Nodup)
     (l : Leaf) (hl : l ∈ leavesTop t) :
     leafParam t (hasNewTop t) l = if eligible t l then some (paramName l.info.name) else none := by
   unfold leafParam eligible
-  have hag := shadow_agrees t hts l hl
+  have hag := shadow_agrees t l hl
   by_cases hs : l.info.skip
   · simp [hs]
   · simp only [hs, Bool.false_eq_true, ↓reduceIte, Bool.not_false, Bool.and_true]
     cases hsh : genShadow t l.depth l.info.name
     · have hg : goShadowed t l.depth l.info.name = false := by
         rw [← hag, hsh]
-      rw [nameMap_of_leaf t _ hts hnd l hl (by simpa using hs) hsh]
+      rw [nameMap_of_leaf t _ hnd l hl (by simpa using hs) hsh]
       simp [hg]
     · have hg : goShadowed t l.depth l.info.name = true := by
         rw [← hag, hsh]
       simp [hg]
 
 /-- L4: the parameters are the eligible leaves in depth-first declaration order -/
-theorem paramNames_spec (t : Tree) (hts : nestedSkipShadows t = false)
+theorem paramNames_spec (t : Tree)
     (hnd : ((visibleLeaves t).map (fun l => paramName l.info.name)).Nodup) :
     (gen t).params.map Prod.fst = (specParams t).map (fun l => paramName l.info.name) := by
   simp only [gen, Bool.false_or]
@@ -214,7 +214,7 @@ theorem paramNames_spec (t : Tree) (hts : nestedSkipShadows t = false)
   rw [← List.filterMap_eq_map, List.filterMap_filter]
   apply filterMap_congr_mem
   intro l hl
-  rw [eligible_iff_leafParam t hts hnd l hl]
+  rw [eligible_iff_leafParam t hnd l hl]
   cases eligible t l <;> simp
 
 end ShootVerif.Ctor
